@@ -265,6 +265,9 @@ pub fn run(report: &Report) {
     explore_range::<U16U64>(report, &range_alphabet12::<U16U64>(), if q { 4 } else { 5 }, "a12@P16");
     explore_range::<U32U64>(report, &small_alphabet::<U32U64>(), if q { 5 } else { 6 }, "mixed-precision-14");
     explore_range::<U64U128>(report, &small_alphabet::<U64U128>(), if q { 4 } else { 5 }, "mixed-precision-14");
+    super::pyfront::sweep(report, "bounds", if q { 0 } else { 1 },
+        "Python AnsCoder / RangeEncoder: messages of 1, 5, 40, 300 (thorough 2000) symbols under 10 models whose fixed-point probabilities are known (Uniform of 6 sizes, Bernoulli(0.5), a dyadic categorical table, a two-symbol Gaussian) in the three call forms and with the coder looked at after every symbol: num_valid_bits / num_bits within information content + n * log2(1 + 2^-8) + 64 (+ one / two words)",
+        &[], &[]);
 }
 
 fn replay_ans<C: Cfg>(letters: &[Letter]) -> Result<String, String> {
